@@ -53,6 +53,7 @@ def _child(fn, jobs, counter, wfd, per_job_limit, init):
                 counter.value += 1
             if i >= len(jobs):
                 break
+            print(f"JOB {i} start pid={os.getpid()}", file=sys.stderr, flush=True)
             faulthandler.dump_traceback_later(per_job_limit, exit=True)
             try:
                 res = ("ok", fn(jobs[i]))
